@@ -39,7 +39,7 @@ func checkC14(c *Ctx) {
 		if w := p.Func(pk, "digest", "Write"); w != nil {
 			RequireFacts(c, p, "C14.guard", w, AcceptNilErr, nil, []Req{
 				{"Canonical(block)", `^noerr ByteOrder\.Element\(`},
-				{"LenMultipleOfBlock", `^0 == \(len\(.*\)%\d+\)$|^\(len\(.*\)%\d+\) == 0$|^len\(.*\) == phi|^phi.* == len\(`},
+				{"LenMultipleOfBlock", `^0 == \(len\(.*\)%\d+\)$|^\(len\(.*\)%\d+\) == 0$|^len\(.*\) == phi|^phi.* == len\(|^\(\(len\(.*\)/\d+\)\*\d+\) == len\(|^len\(.*\) == \(\(len\(.*\)/\d+\)\*\d+\)$`},
 			})
 		} else {
 			c.Undecided("anchor %s digest.Write not found", pk)
